@@ -473,6 +473,7 @@ Proof.
     inversion H; subst. apply create_batch_inv in E1 as [I1 T1]; [|exact I].
     unfold sweep in E2. apply sweep_loop_inv in E2 as [I2 T2]; [|exact I1].
     split; [exact I2 | congruence].
+  - inversion H; subst. split; [exact I | reflexivity].
 Qed.
 
 Lemma step_inv : forall s o, table_wf (table s) -> Inv s ->
@@ -543,7 +544,7 @@ Theorem failed_op_is_noop_proof : forall s o s',
 Proof.
   intros s o s' A H. unfold step in H. destruct (step3 s o) as [[s1 o1] n] eqn:E. simpl in H.
   inversion H; subst s1 o1; clear H.
-  destruct o; simpl in A; try discriminate; simpl in E;
+  destruct o; simpl in A; try discriminate; simpl in E; try (inversion E; fail);
     try (unfold build in E); try (unfold cancel_batch in E);
     apply atomically_cases in E as [[X _]|[_ X]]; congruence.
 Qed.
@@ -730,6 +731,7 @@ Proof.
     destruct (sweep f n1 now s1) as [[s2 o2] n2] eqn:E2. inversion E; subst.
     apply create_batch_supply in E1. unfold sweep in E2. apply sweep_loop_supply in E2.
     rewrite E2, E1. simpl; lia.
+  - inversion E; subst. simpl. lia.
 Qed.
 
 Theorem supply_delta_only_attested_proof : forall tb b0 sup0 ops d,
@@ -940,6 +942,7 @@ Proof.
       * inversion E; subst; simpl; auto.
     + apply to_comm_fates in E as [A B]. simpl in A, B. auto.
     + apply to_comm_fates in E as [A B]. simpl in A, B. auto.
+  - unfold step in H; simpl in H. inversion H; subst; auto.
 Qed.
 
 (** an accepted transfer stays accepted: ids are never reused *)
@@ -984,6 +987,146 @@ Proof.
       * inversion E; subst; simpl; lia.
     + apply G in E. simpl in E. lia.
     + apply G in E. simpl in E. lia.
+  - unfold step in H; simpl in H. inversion H; subst; lia.
+Qed.
+
+(** * What a pending transfer owes is fixed when it is sent *)
+(** No operation rewrites a pending transfer record: every record pending after a step was pending
+    before it, or is the one a successful send has just created from its inputs (amount and the
+    tax charged at send time).  Together with [cancel_ok_refunds_in_full] / [executed_ok_burns_batch]
+    (refund and burn use [owed t] of the stored record): governance changes of the tax settings
+    between send and cancel / execution cannot change what is refunded or burned. *)
+Lemma build_pending : forall f c k max now s s' out n,
+  build f c k max now s = (s', out, n) -> Permutation (pending s') (pending s).
+Proof.
+  intros f c k max now s s' out n H. unfold build in H.
+  apply atomically_cases in H as [[-> H]|[-> ->]]; [|reflexivity].
+  unfold build_raw in H. destruct (max <=? 0); [discriminate|].
+  destruct (pick c k (Z.to_nat max) (pool s)) as [picked rest] eqn:EP. destruct picked as [|t0 pk].
+  - inversion H; reflexivity.
+  - destruct (f 0%nat); [discriminate|]. simpl in H. destruct (f 1%nat); [discriminate|].
+    destruct (f 2%nat); [discriminate|]. inversion H; subst s' n; clear H.
+    pose proof (pick_perm _ _ _ _ _ _ EP) as HP.
+    unfold pending; simpl.
+    rewrite (flat_map_perm _ _ b_txs _ _ (batch_insert_perm _ _)). simpl.
+    rewrite <- HP. change (t0 :: pk ++ flat_map b_txs (batches s)) with ((t0 :: pk) ++ flat_map b_txs (batches s)).
+    rewrite app_assoc. apply Permutation_app_tail. apply Permutation_app_comm.
+Qed.
+
+Lemma cancel_batch_pending : forall f k n s s' out m,
+  cancel_batch f k n s = (s', out, m) -> Permutation (pending s') (pending s).
+Proof.
+  intros f k n s s' out m H. unfold cancel_batch in H.
+  apply atomically_cases in H as [[-> H]|[-> ->]]; [|reflexivity].
+  unfold cancel_batch_raw in H.
+  destruct (find_batch k n (batches s)) as [b|] eqn:EF; [|discriminate]. simpl in H.
+  destruct (f 0%nat); [discriminate|]. inversion H; subst s' m; clear H.
+  pose proof (find_remove_first_perm _ _ _ _ EF) as HP.
+  unfold pending; simpl. rewrite pool_insert_all_perm.
+  rewrite (flat_map_perm _ _ b_txs _ _ HP). simpl.
+  rewrite <- !app_assoc. rewrite (app_assoc (b_txs b)). rewrite (app_assoc (pool s)).
+  apply Permutation_app_tail. apply Permutation_app_comm.
+Qed.
+
+Lemma create_loop_pending : forall f es n now s s' out m,
+  create_loop f n es now s = (s', out, m) -> Permutation (pending s') (pending s).
+Proof.
+  intros f es; induction es as [|[[c d] k0] r IH]; intros n now s s' out m H; simpl in H.
+  - inversion H; reflexivity.
+  - destruct (erc20_of (table s) c d) as [k|]; [|inversion H; reflexivity].
+    destruct (build (shift f n) c k batch_size now s) as [[s1 o1] m1] eqn:EB.
+    apply build_pending in EB. destruct o1.
+    + apply IH in H. etransitivity; eauto.
+    + inversion H; subst; exact EB.
+Qed.
+
+Lemma sweep_loop_pending : forall f bs n now s s' out m,
+  sweep_loop f n bs now s = (s', out, m) -> Permutation (pending s') (pending s).
+Proof.
+  intros f bs; induction bs as [|b r IH]; intros n now s s' out m H; simpl in H.
+  - inversion H; reflexivity.
+  - destruct (b_timeout b <? now); [|eapply IH; eauto].
+    destruct (cancel_batch (shift f n) (b_contract b) (b_nonce b) s) as [[s1 o1] m1] eqn:EB.
+    apply cancel_batch_pending in EB. destruct o1.
+    + apply IH in H. etransitivity; eauto.
+    + inversion H; subst; exact EB.
+Qed.
+
+Lemma create_batch_pending : forall f n h now s s' out m,
+  create_batch f n h now s = (s', out, m) -> Permutation (pending s') (pending s).
+Proof.
+  intros f n h now s s' out m H. unfold create_batch in H.
+  destruct (h mod batch_period =? 0); [eapply create_loop_pending; eauto | inversion H; reflexivity].
+Qed.
+
+Lemma to_comm_pending : forall f idx d a s s' out m,
+  to_comm f idx d a s = (s', out, m) -> pending s' = pending s.
+Proof.
+  intros f idx d a s s' out m H. unfold to_comm in H. destruct (f idx); inversion H; reflexivity.
+Qed.
+
+Theorem pending_records_immutable_proof : forall s o s' out t,
+  step s o = (s', out) -> In t (pending s') ->
+  In t (pending s) \/
+  exists u c d a tax f k, o = OSend u c d a tax f /\ out = Ok /\ erc20_of (table s) c d = Some k /\
+                          t = mkT (last_tx s + 1) u c k a tax.
+Proof.
+  intros s o s' out t H HI. unfold step in H. destruct (step3 s o) as [[s1 o1] n] eqn:E. simpl in H.
+  inversion H; subst s1 o1; clear H.
+  destruct o; simpl in E.
+  - (* send *) apply atomically_cases in E as [[-> E]|[-> ->]]; [|now left].
+    unfold send_raw in E. destruct ((a <=? 0) || (tax <? 0)); [discriminate|].
+    destruct (erc20_of (table s) c d) as [k|] eqn:EK; [|discriminate].
+    destruct (f 0%nat || _); [discriminate|]. destruct (f 1%nat); [discriminate|].
+    inversion E; subst s' n; clear E. unfold pending in HI; simpl in HI.
+    apply in_app_or in HI as [HI|HI].
+    + apply (Permutation_in _ (pool_insert_perm _ _)) in HI. destruct HI as [HI|HI].
+      * right. exists u, c, d, a, tax, f, k. repeat split; auto.
+      * left. unfold pending. apply in_or_app. now left.
+    + left. unfold pending. apply in_or_app. now right.
+  - (* cancel *) left. apply atomically_cases in E as [[-> E]|[-> ->]]; [|exact HI].
+    unfold cancel_raw in E. destruct (i <? 1); [discriminate|].
+    destruct (find (fun t => t_id t =? i) (pool s)) as [t0|] eqn:EF; [|discriminate].
+    destruct (negb (t_sender t0 =? u)); [discriminate|].
+    destruct (tx_denom (table s) t0); [|discriminate]. simpl in E.
+    destruct (f 0%nat || _); [discriminate|]. destruct (f 1%nat); [discriminate|].
+    inversion E; subst s' n; clear E. unfold pending in *; simpl in HI.
+    pose proof (find_remove_first_perm _ _ _ _ EF) as HP.
+    apply in_app_or in HI as [HI|HI]; apply in_or_app; [left|now right].
+    apply (Permutation_in _ (Permutation_sym HP)). now right.
+  - left. apply build_pending in E. eapply Permutation_in; eauto.
+  - left. apply cancel_batch_pending in E. eapply Permutation_in; eauto.
+  - (* set gas *) left. apply atomically_cases in E as [[-> E]|[-> ->]]; [|exact HI].
+    unfold set_gas_raw in E. destruct (find_batch k n0 (batches s)) as [b|]; [|discriminate].
+    destruct (0 <? b_gas b); [discriminate|]. destruct (f 0%nat); [discriminate|].
+    inversion E; subst s' n; clear E. unfold pending in *; simpl in HI.
+    now rewrite flat_map_set_gas in HI.
+  - (* executed *) left. apply atomically_cases in E as [[-> E]|[-> ->]]; [|exact HI].
+    unfold executed_raw in E. destruct (find_batch k n0 (batches s)) as [b|] eqn:EF; [|discriminate].
+    destruct (negb (b_chain b =? c)); [discriminate|]. destruct (b_timeout b <=? eth); [discriminate|].
+    destruct (denom_of (table s) c k); [|discriminate]. destruct (f 0%nat || _); [discriminate|].
+    inversion E; subst s' n; clear E. unfold pending in *; simpl in HI.
+    pose proof (find_remove_first_perm _ _ _ _ EF) as HP.
+    apply in_app_or in HI as [HI|HI]; apply in_or_app; [now left | right].
+    apply (Permutation_in _ (Permutation_sym (flat_map_perm _ _ b_txs _ _ HP))). simpl.
+    apply in_or_app. now right.
+  - (* deposit *) left. apply atomically_cases in E as [[-> E]|[-> ->]]; [|exact HI].
+    unfold deposit_raw in E. destruct (denom_of (table s) c k) as [d|]; [|discriminate].
+    destruct (f 0%nat || (a <=? 0)); [discriminate|].
+    destruct r as [u| |].
+    + destruct (f 1%nat).
+      * apply to_comm_pending in E. rewrite E in HI. exact HI.
+      * inversion E; subst. exact HI.
+    + apply to_comm_pending in E. rewrite E in HI. exact HI.
+    + apply to_comm_pending in E. rewrite E in HI. exact HI.
+  - left. apply create_batch_pending in E. eapply Permutation_in; eauto.
+  - left. unfold sweep in E. apply sweep_loop_pending in E. eapply Permutation_in; eauto.
+  - left. unfold end_block in E.
+    destruct (create_batch f 0%nat h now s) as [[s1 o1] n1] eqn:E1.
+    destruct (sweep f n1 now s1) as [[s2 o2] n2] eqn:E2. inversion E; subst.
+    apply create_batch_pending in E1. unfold sweep in E2. apply sweep_loop_pending in E2.
+    eapply Permutation_in; [|exact HI]. etransitivity; eauto.
+  - left. inversion E; subst. exact HI.
 Qed.
 
 (** * The model is the model of the code that is there now (translator facts) *)
